@@ -46,6 +46,20 @@ def tmpl_observe(W: World):
             vars=sorted(seq._variables),
             snap=norm(seqimpl.snap_full(cd, seq)),
             measured=str(getattr(seq, "_measurement", None)) + "|" + str(seq._param_measurement),
+            # the rest of the instance state, in full
+            qids=sorted(str(q) for q in seq._qids),
+            register=[type(seq._register).__name__, [str(q) for q in seq._register.qubit_ids],
+                      seq._register is W.reg],
+            device=seq._device is W.dev,
+            basis_ref={b: sorted(str(q) for q in d) for b, d in seq._basis_ref.items()},
+            channels=[[n, cs.channel_id] for n, cs in seq._schedule.items()],
+            flags=norm([bool(seq._in_xy), bool(seq._in_ising), bool(seq._empty_sequence),
+                        sorted(str(q) for q in seq._slm_mask_targets), str(seq._slm_mask_dmm),
+                        None if seq._mag_field is None else [float(x) for x in seq._mag_field]]),
+            init_call=[seq._calls[0].name, len(seq._calls[0].args), sorted(seq._calls[0].kwargs),
+                       seq._calls[0].kwargs.get("register") is W.reg],
+            var_decls=[[n, v.dtype.__name__, v.size] for n, v in seq._variables.items()],
+            attrs=sorted(k for k in vars(seq) if k not in ("_received", "_rec_depth")),
         )
 
 
@@ -189,12 +203,66 @@ def run_case(case):
                         for q in want:
                             if trap_of(W.layout, built.register.qubits[q]) != qubits[q]:
                                 bad("mappable:wrong-trap", f"qubit {q} not on trap {qubits[q]}")
+                    rq = set(built.register.qubit_ids)
+                    if set(built._qids) != rq or set(built._qids) != set(direct._qids):
+                        bad("build-differs:qubit-set",
+                            f"build #{bi}: the built sequence's qubit ids {sorted(map(str, built._qids))} are not "
+                            f"those of its register {sorted(map(str, rq))}", dict(build=bi))
                     if built is seq or built._schedule is seq._schedule:
                         bad("build-shares-state", "build returned the template's own state")
             elif exc is None and dfail is not None and dfail[0] == "eval":
                 # the assignment has no meaning (an expression raises) yet build succeeded
                 bad("build-succeeds:expression-raises", f"build #{bi} succeeded although evaluating an argument raises")
-    run = dict(touts=touts, tmpl=t0, builds=builds, otable=otable, world=W, param_ops=param_ops)
+        # ---------------- the template stays usable: more calls, another build,
+        # compared with a twin that receives the same calls but was never built
+        ext = case.get("ext_ops") or []
+        ext_info = None
+        if ext or case.get("ext_build"):
+            W2 = World(case)
+            n0 = len(case["ops"])
+            for i, op in enumerate(case["ops"]):
+                try:
+                    W2.exec_op(W2.seq, i, op)
+                except Exception:  # noqa: BLE001
+                    pass
+            o1, o2 = [], []
+            for j, op in enumerate(ext):
+                for Wx, outs in ((W, o1), (W2, o2)):
+                    try:
+                        Wx.exec_op(Wx.seq, n0 + j, op)
+                        outs.append("ok")
+                    except Exception as e:  # noqa: BLE001
+                        outs.append(type(e).__name__)
+            if o1 != o2:
+                bad("template-altered:continued-use:call-outcome",
+                    f"after its builds the template answers {o1} to further calls, a never-built twin {o2}",
+                    dict(ext=ext))
+            ta, tb = tmpl_observe(W), tmpl_observe(W2)
+            if ta != tb:
+                diff = [k for k in ta if ta[k] != tb[k]]
+                bad("template-altered:continued-use:" + ",".join(diff),
+                    f"after its builds and further calls the template differs from a never-built twin in {diff}")
+            eb = case.get("ext_build")
+            if eb is not None:
+                env = {n: v for n, v in eb["env"]}
+                qubits = {q: t for q, t in eb["qubits"]} if eb["qubits"] is not None else None
+                res = []
+                for Wx in (W, W2):
+                    try:
+                        res.append(("ok", Wx.seq.build(qubits=qubits, **env)))
+                    except Exception as e:  # noqa: BLE001
+                        res.append((type(e).__name__, None))
+                if res[0][0] != res[1][0]:
+                    bad("template-altered:continued-use:build-outcome",
+                        f"building again: {res[0][0]} for the used template, {res[1][0]} for the twin")
+                elif res[0][1] is not None:
+                    sa = norm(seqimpl.snap_full(seqimpl.Coder(case), res[0][1]))
+                    sb2 = norm(seqimpl.snap_full(seqimpl.Coder(case), res[1][1]))
+                    if sa != sb2 or set(res[0][1]._qids) != set(res[1][1]._qids):
+                        bad("template-altered:continued-use:build-differs",
+                            "building again gives another sequence than building the twin")
+            ext_info = dict(outcomes=o1, twin=o2)
+    run = dict(touts=touts, tmpl=t0, builds=builds, otable=otable, world=W, param_ops=param_ops, ext=ext_info)
     return run, viols
 
 
